@@ -135,6 +135,8 @@ def faults(cls, tier):
         out.append({"fault": "ctor_both_lists", "how": "quali"})
         out.append({"fault": "ctor_both_lists", "how": "ordinal"})
         out.append({"fault": "ctor_sort_by", "how": "unknown"})
+        for h in ("empty", "none", "zero"):
+            out.append({"fault": "ctor_sort_by", "how": h})
         if cls != "ContinuousCarver":
             out.append({"fault": "ctor_sort_by", "how": "kruskal"})
         else:
@@ -213,7 +215,7 @@ def apply_fault(cls, fd, X, y, variant):
             return ("ctor", dict(qualitative_features=["c", "q"]))
         return ("ctor", dict(ordinal_features=["o", "q"], values_orders={"o": ["lo", "mid", "hi"], "q": ["1", "2", "3"]}))
     elif f == "ctor_sort_by":
-        return ("ctor", dict(sort_by={"unknown": "gini", "kruskal": "kruskal", "tschuprowt": "tschuprowt"}[fd["how"]]))
+        return ("ctor", dict(sort_by={"unknown": "gini", "kruskal": "kruskal", "tschuprowt": "tschuprowt", "empty": "", "none": None, "zero": 0}[fd["how"]]))
     elif f == "refit":
         if fd["how"] == "other_frame":
             X = X.iloc[::-1].reset_index(drop=True) if variant != 2 else X.iloc[::-1]
